@@ -16,6 +16,9 @@ RULE = ("inspace: generated bar-shaped episodes whose action space is a BoxPortf
         "call in steps j..j+d raises; the raising call adds no track-record entry and changes no position; the malformed action never appears as an "
         "executed allocation. Non-trivial (inspace) = an entry for the cash contract or number-of-contracts mode or a discrete space, with >= 2 "
         "non-zero executions; (malformed) = injection after at least one executed decision.")
+RULE = RULE + (" Half of the malformed cases hand the actions to TradingEnv.backtest through a policy object instead of calling step(): the loop "
+               "must stop with an error no later than the due step and no execution of the malformed action may be recorded. Malformed forms also "
+               "include a mapping naming a contract outside the space and a bare scalar.")
 ASSUMPTIONS = [
     "after a rejected action the episode is abandoned (the statement says nothing about continuing it)",
     "Python bool is an int and therefore a legal discrete action; not generated as malformed",
